@@ -185,10 +185,12 @@ class PayloadGen:
                 return vstr(r.choice(["", "1", "1,2", "1,,2", ",3,", "255"] if r.random() >= p else ["x", "1,x", "256", "1, 2"]))
             return vstr(r.choice(["", "a", "a,b", "a,,b", ",", "a,b,c"]))
         if k == "jvalue" and self.golden:
-            return r.choice([vnull(), vint(1), vneg(-3), vfloat(0.5), vstr("s"), vseq([vint(1), vseq([])]), vmap([("a", vmap([("b", vnull())]))])])
+            return r.choice([vnull(), vint(1), vneg(-3), vfloat(0.5), vstr("s"), vseq([vint(1), vseq([])]), vmap([("a", vmap([("b", vnull())]))]),
+                             vmap([("b", vint(1)), ("a", vstr("x")), ("c", vseq([vmap([("z", vnull()), ("y", vbool(True))])]))])])
         if k == "jvalue":
             return r.choice([vnull(), vint(1), vneg(-3), vfloat(0.5), vstr("s"), vseq([vint(1), vseq([])]), vmap([("a", vmap([("b", vnull())]))]),
                              vint(2**64 - 1), vneg(-2**63),
+                             vmap([("b", vint(1)), ("a", vstr("x")), ("c", vseq([vmap([("z", vnull()), ("y", vbool(True))])]))]),      # members not in key order
                              vmap([("a", vfloat(float("inf"))), ("b", vint(1)), ("c", vfloat(float("nan")))]),
                              vseq([vfloat(float("-inf")), vmap([("k", vfloat(float("nan"))), ("l", vseq([vfloat(float("inf"))]))])]),
                              vmap([("m", vmap([("x", vfloat(float("nan")))])), ("n", vfloat(1.5))])])
